@@ -2,6 +2,8 @@ package main
 
 import (
 	"flag"
+	"os"
+	"time"
 	"fmt"
 	"math/rand"
 	"net/http"
@@ -353,7 +355,14 @@ type innerSpec struct {
 	Status int // 0: the handler never calls WriteHeader/Write
 	Body   string
 	Set    http.Header
+	// Reenter: the handler is an "admin endpoint" (the documentation invites exposing the middleware's methods): before
+	// answering it calls, on the very middleware that wraps it, Config(), SetDebug(current mode) and Reconfigure(Config()) -
+	// none of which changes the state
+	Reenter bool
 }
+
+// errHang is reported when a re-entrant handler never returns.
+var hung = false
 
 func emitServe(t *tracer, m *cors.Middleware, dbg bool, rs reqSpec, pre http.Header, inner *innerSpec, extra map[string]any) (panicked bool) {
 	defer func() {
@@ -377,6 +386,13 @@ func emitServe(t *tracer, m *cors.Middleware, dbg bool, rs reqSpec, pre http.Hea
 		s.sameReq = r2 == r
 		s.sameW = w2 == http.ResponseWriter(w)
 		entry = cloneHeader(w2.Header())
+		if inner.Reenter {
+			c := m.Config()
+			m.SetDebug(dbg)
+			if c != nil {
+				m.Reconfigure(c)
+			}
+		}
 		for k, v := range inner.Set {
 			w2.Header()[k] = append([]string(nil), v...)
 		}
@@ -388,7 +404,27 @@ func emitServe(t *tracer, m *cors.Middleware, dbg bool, rs reqSpec, pre http.Hea
 			}
 		}
 	})
-	m.Wrap(spy).ServeHTTP(w, r)
+	if inner.Reenter {
+		// under a watchdog: a middleware that keeps its lock while the handler runs never comes back
+		done := make(chan any, 1)
+		go func() {
+			defer func() { done <- recover() }()
+			m.Wrap(spy).ServeHTTP(w, r)
+		}()
+		select {
+		case p := <-done:
+			if p != nil {
+				panic(p)
+			}
+		case <-time.After(10 * time.Second):
+			hung = true
+			t.emit(map[string]any{"ev": "Hang", "m": rs.Method, "req": hdrJSON(rs.H), "dbg": dbg,
+				"what": "a handler that calls Config / SetDebug / Reconfigure(Config()) on its own middleware never returned (10 s)"})
+			return false
+		}
+	} else {
+		m.Wrap(spy).ServeHTTP(w, r)
+	}
 	s.w = w
 	ol := linesOf(rs.H, hOrigin)
 	var o1b, o1u, acaob any = []int{}, []int{}, [][]int{}
@@ -627,7 +663,8 @@ func cmdServe(args []string) {
 				variant{http.Header{"Vary": {"Accept-Encoding, Origin"}}, nil},
 				variant{http.Header{"Vary": {"X-Forwarded-Origin"}}, nil})
 		case "C11":
-			variants = append(variants, variant{presetAll, nil}, variant{nil, busy}, variant{presetVary, silent}, variant{presetAll, busy})
+			variants = append(variants, variant{presetAll, nil}, variant{nil, busy}, variant{presetVary, silent}, variant{presetAll, busy},
+				variant{nil, &innerSpec{Status: 200, Reenter: true}})
 		}
 		for _, dbg := range []bool{false, true} {
 			m.SetDebug(dbg)
@@ -640,6 +677,14 @@ func cmdServe(args []string) {
 					}
 					if emitServe(t, m, dbg, rs, vr.pre, vr.inner, extra) {
 						panics++
+					}
+					if hung {
+						// the stuck goroutine holds the middleware's lock: nothing more can be served
+						t.emit(map[string]any{"ev": "EndBlock"})
+						writeJSON(*out, map[string]any{"served": served, "configs": processed, "reused": reused, "rejected": rejected, "panics": panics,
+							"preflights": preflights, "events": t.n, "samples": samples, "hung": true})
+						t.close()
+						os.Exit(0)
 					}
 					served++
 					if rs.Method == "OPTIONS" && len(rs.H[hOrigin]) > 0 && len(rs.H[hACRM]) > 0 {
